@@ -23,6 +23,18 @@ FullSetD(D(_), IsRec(_), alts, c, maxd) ==
 PiSetsD(D(_), IsRec(_), alts, c, maxd) ==
     LET rec == {a \in alts : IsRec(a) /\ D(a) < maxd - c}
     IN {GrowSetD(D, alts, c, maxd)} \cup (IF rec # {} THEN {rec} ELSE {})
+\* ProgressivelyTerminalDecider: no depth limit; an alternative is drawn with weight
+\*     (depth factor) * (grammar weight),   depth factor = target \div (c + 1)   for a recursive production
+\*                                                       = target - D(a)         otherwise
+\* and when every product is zero the choice is, by grammar weight, among the alternatives CLOSEST TO A TERMINAL
+\* (fallback = "closest"); fallback = "any" is the rule before the repair (any alternative, by grammar weight).
+PtFactor(D(_), IsRec(_), a, c, target) == IF IsRec(a) THEN target \div (c + 1) ELSE target - D(a)
+PtSetD(D(_), IsRec(_), W(_), alts, c, target, fallback) ==
+    LET pos     == {a \in alts : PtFactor(D, IsRec, a, c, target) * W(a) > 0}
+        usable  == IF {a \in alts : W(a) > 0} # {} THEN {a \in alts : W(a) > 0} ELSE alts
+        closest == {a \in usable : \A b \in usable : D(a) <= D(b)}
+    IN IF pos # {} THEN pos ELSE IF fallback = "closest" THEN closest ELSE usable
+
 ChoicesD(D(_), IsRec(_), d, alts, c, maxd) ==
     CASE d = "grow"   -> GrowSetD(D, alts, c, maxd)
       [] d = "full"   -> FullSetD(D, IsRec, alts, c, maxd)
